@@ -27,8 +27,9 @@ def spec_for(name):
 def gen_trace(recipe):
   # reference values come from a SEPARATE, identically constructed world, so that a reference execution
   # that scribbles over its arguments cannot hide (or fake) a side effect of the history under test
-  ref = lifecycle.reference(lifecycle.World(recipe['est'], recipe['seed'], same_dims=recipe['same_dims']))
-  w = lifecycle.World(recipe['est'], recipe['seed'], same_dims=recipe['same_dims'])
+  kw = dict(same_dims=recipe['same_dims'], indexed=bool(recipe.get('indexed')))
+  ref = lifecycle.reference(lifecycle.World(recipe['est'], recipe['seed'], **kw))
+  w = lifecycle.World(recipe['est'], recipe['seed'], **kw)
   events = lifecycle.run(w, recipe['ops'])
   return {'est': recipe['est'], 'dims': w.dims, 'has_threshold': w.has_thr, 'ref': ref, 'events': events,
           'qnames': w.qnames}
@@ -45,9 +46,10 @@ def write_cfg(path, has_thr, nq, depth, maxobjs=3, maxh=2):
             ' Strategies = {1, 2}\n Queries = {%s}\n HasThreshold = %s\n MaxObjs = %d\n MaxHandles = %d\n Depth = %d\n'
             % (', '.join(str(i) for i in range(1, nq + 1)), 'TRUE' if has_thr else 'FALSE', maxobjs, maxh, depth))
     f.write('SPECIFICATION Spec\nVIEW View\nCONSTRAINT BoundedDepth\n')
-    for i in ['TypeOK', 'NfeatOfLastFit', 'ThresholdNeedsFit', 'FitThresholdIsCurrent']:
+    for i in ['TypeOK', 'NfeatOfLastFit', 'ThresholdNeedsFit', 'FitThresholdIsCurrent', 'PrepOnlyWhenFitted']:
       f.write('INVARIANT %s\n' % i)
     for i in ['OnlyFitChangesModel', 'OnlyThreeActionsChangeThreshold', 'OnlySetParamsChangesParams',
+              'OnlyFitAndCalibrateChangePreprocessorInForce',
               'HandlesImmutable', 'ObjectsNeverDisappear', 'FitIsHistoryIndependent']:
       f.write('PROPERTY %s\n' % i)
     f.write('CHECK_DEADLOCK FALSE\n')
@@ -108,9 +110,11 @@ def run(ctx):
     for k in range(per_est):
       ops = hs[g][counters[g] % len(hs[g])]
       counters[g] += 1
-      rs.append(dict(est=name, seed=int(rng.integers(1 << 30)), same_dims=bool(k % 3 == 2), ops=ops, src='tlc'))
+      rs.append(dict(est=name, seed=int(rng.integers(1 << 30)), same_dims=bool(k % 3 == 2), indexed=bool(k % 3 == 1),
+                     ops=ops, src='tlc'))
     rs.append(dict(est=name, seed=int(rng.integers(1 << 30)), same_dims=False, ops=directed_ops(name), src='directed'))
     rs.append(dict(est=name, seed=int(rng.integers(1 << 30)), same_dims=True, ops=directed_ops(name), src='directed'))
+    rs.append(dict(est=name, seed=int(rng.integers(1 << 30)), same_dims=True, indexed=True, ops=directed_ops(name), src='directed'))
   ctx.rule = ('MC_Lifecycle exhaustive to depth %d; behaviours simulated by TLC (depth %d) executed on all 17 estimators '
               '(%d per estimator, every third with same-dimension data sets and array-valued init/prior/basis/weights/'
               'preprocessor parameters, ITML bounds and LSML weights as caller arrays) + 2 directed histories per '
